@@ -83,7 +83,7 @@ def opsC19 : List (String × Handler) := [
           | none => "bad-op"
           | some sigv =>
             let env : Env := { nowNs := now, lifeProof := life, payloadOk := pok == "1",
-                               domainOk := if dok == "e" then .err "domain" else .ok (dok == "1"),
+                               domainOk := if dok == "e" then none else some (dok == "1"),
                                getter := getter, known := known }
             let p : ProofIn := { address := addr, ts := ts, domain := dom, signature := sigv, payload := payload,
                                  stateInitEmpty := siEmpty, stateInit := b }
